@@ -10,6 +10,22 @@ import Driver.Base
 open Lean (Json)
 open PM PM.Codec
 
+/-- evaluation helper of op `fitEmit` (not a model of library code): does `p` hold in the state
+    `Fitter.__init__` builds and after every iteration of the loop of `fit`?  `none` = the run raises or
+    runs out of fuel. -/
+def fitLoopAll (S : Schema) (p : FitState → Bool) : Nat → FitState → Option Bool
+  | 0, st => if st.unplaced.size == 0 then some (p st) else none
+  | fuel + 1, st =>
+    if st.unplaced.size == 0 then some (p st)
+    else match fitStep S st with
+      | .ok st' => (fitLoopAll S p fuel st').map (fun b => b && p st)
+      | .error _ => none
+
+/-- `placed` and the frontier are in step: the last-child chain of non-leaf nodes of `placed` is at
+    least as long as the frontier is deep (the invariant behind the end half of `fit_emits_wf`,
+    Props/C11.lean) -/
+def inStep (st : FitState) : Bool := decide (st.frontier.length - 1 ≤ spineR st.placed)
+
 def handleRange (st : St) (op : String) (j : Json) : Option (D (St × Json)) :=
   match op with
   | "fitsTrivially" => some do
@@ -87,6 +103,55 @@ def handleRange (st : St) (op : String) (j : Json) : Option (D (St × Json)) :=
       else Json.null
     return (st, ok (Json.mkObj [("partial", Json.bool (!sl.noPartialNode S)), ("term", Json.bool sl.termGuard),
       ("wf", Json.bool sl.wf), ("det", Json.bool (PM.FromDom.detB S)), ("model", Json.str outcome), ("hyp", hyp)]))
+  -- ---------------- well-formedness of the emitted step (Props/C11.lean `fit_emits_wf_partial`, `delete_emits_wf`,
+  -- `insertInline_emits_wf`): `StepWF` / `aroundShape` / the start half on the model's emitted step (compared exactly with
+  -- the same predicates on the real step), and whether the in-step invariant held over the whole loop (relational)
+  | "fitEmit" => some do
+    let S ← getSchema st j
+    let d ← node (← field j "doc")
+    let f ← nat (← field j "from")
+    let t ← nat (← field j "to")
+    let sl ← slice (← field j "slice")
+    let r := replaceStep S d f t sl
+    let kind : String := match r with
+      | .ok none => "none"
+      | .ok (some (.replaceAround ..)) => "around"
+      | .ok (some _) => "replace"
+      | .error .raises => "raises"
+      | .error .outOfFuel => "outOfFuel"
+      | .error .negInsert => "negInsert"
+    let wf : Json := match r with
+      | .ok (some s) => Json.bool (StepWF s)
+      | _ => Json.null
+    let left : Json := match r with
+      | .ok (some (.replace _ _ s _)) => Json.bool (decide (s.openStart ≤ spineL s.content))
+      | .ok (some (.replaceAround _ _ _ _ s ins _)) =>
+        Json.bool (decide (s.openStart ≤ spineL s.content) && decide ((ins : Int) ≤ s.size))
+      | _ => Json.null
+    let shape : Json := match r with
+      | .ok (some (.replaceAround F T G1 G2 s ins _)) => Json.bool (aroundShape F T G1 G2 s ins)
+      | _ => Json.null
+    -- the loop, when the Fitter is reached
+    let loop : Json :=
+      if f == t && sl.size == 0 then Json.null
+      else match d.resolve f, d.resolve t with
+        | some rf, some rt =>
+          match fitsTriviallyR S rf rt sl with
+          | some false =>
+            match fitInit S rf sl with
+            | .ok st0 =>
+              match fitLoopAll S inStep (fitFuel S sl) st0 with
+              | some b => Json.bool b
+              | none => Json.null
+            | .error _ => Json.null
+          | _ => Json.null
+        | _, _ => Json.null
+    let cls : String :=
+      if sl.content.isEmpty then "empty" else if sl.inlineLeaves S then "inline"
+      else if sl.openStart == 0 && sl.openEnd == 0 then "closed" else "open"
+    return (st, ok (Json.mkObj [("kind", Json.str kind), ("wf", wf), ("left", left), ("shape", shape),
+      ("rel", Json.mkObj [("inStep", loop), ("cls", Json.str cls),
+        ("hyp", Json.bool (PM.FromDom.detB S && S.fillersOKB && S.wrapOKB && S.checkNode d && S.nodeAttrsOK d))])]))
   | "fillBeforeO" => some do
     let S ← getSchema st j
     let dfa := S.dfa (← nat (← field j "ty"))
